@@ -1384,10 +1384,17 @@ func (r *Resolver) authority(ctx context.Context, req, resp *dns.Msg, parentDS [
 	// asked: signature checks only ever looked at in-zone records, so a
 	// record for another name rode along unexamined — next to AD when the
 	// denial itself validated.
+	// A denial consists of the SOA and the NSEC/NSEC3 proof with their
+	// signatures; an NS set or any other record type there is not part of it
+	// and, being unsigned by nature or by omission, cannot be checked.
 	if zone != "" {
 		inZone := resp.Ns[:0:0]
 		for _, rr := range resp.Ns {
-			if rr != nil && dnsutil.NameInZone(dns.CanonicalName(rr.Header().Name), dns.CanonicalName(zone)) {
+			if rr == nil || !dnsutil.NameInZone(dns.CanonicalName(rr.Header().Name), dns.CanonicalName(zone)) {
+				continue
+			}
+			switch rr.Header().Rrtype {
+			case dns.TypeSOA, dns.TypeNSEC, dns.TypeNSEC3, dns.TypeRRSIG:
 				inZone = append(inZone, rr)
 			}
 		}
